@@ -124,6 +124,13 @@ func runC14(c *fw.Case) {
 	if invertible && (rows == 0 || ncols == 0) {
 		rows, ncols = 1+rng.Intn(10), 1+rng.Intn(3)
 	}
+	if c.No%40 == 7 {
+		// large documents (output well beyond 4 KiB, every row count up to a few thousand is hit over the run)
+		rows = 100 + rng.Intn(2400)
+		if ncols == 0 {
+			ncols = 2
+		}
+	}
 	f := &model.Frame{}
 	used := map[string]bool{}
 	escapes := false
